@@ -101,6 +101,10 @@ func (lc *LogicContext) makeSetupUri(uri string, aControl string) string {
 
 func ParseSdp2LogicContext(b []byte) (LogicContext, error) {
 	var ret LogicContext
+	// 注意，AvPacketPt的零值是一个有效的类型（G711U），所以显式初始化为Unknown，
+	// 避免sdp中不存在的track被当成G711U（比如只有视频的流被当成音视频都有）
+	ret.audioPayloadTypeBase = base.AvPacketPtUnknown
+	ret.videoPayloadTypeBase = base.AvPacketPtUnknown
 
 	c, err := ParseSdp2RawContext(b)
 	if err != nil {
